@@ -49,18 +49,17 @@ def dy(rng, lo, hi, den):
 # ----------------------------------------------------------------------------- building real processes
 def step_driver(rng, d, infinite_variation=False):
     """dyadic step-measure driver (1-d StepModel or a copula of d of them) and a grid of step 1/4.
-    The density is positive around 0 and differs left/right of 0, so the chain's drift (which leaves out
-    the mass of (-h/2, h/2)) CHANGES when the grid is refined: drift(h) = const - (c_right - c_left) h^2 / 8;
-    with the infinite-variation flag the equivalent diffusion coefficient changes with h as well."""
+    The density is positive around 0, asymmetric, and has breaks (at +-5/64) that are not cell boundaries down to h = 1/32, so the
+    chain's drift (mu_h: state x cell mass, leaving out (-h/2, h/2)) CHANGES when the grid is refined; with the
+    infinite-variation flag the equivalent diffusion coefficient changes with h as well."""
     from stepmeasure import StepMeasure, StepModel, make_grid, step_spec, build_copula_model
     Fr = Fraction
     h = Fr(1, 4)
     n_side = rng.choice([3, 4])
     axis = [h * k for k in range(-n_side, n_side + 1)]
-    cl = rng.randrange(1, 6)
-    cr = rng.choice([k for k in range(1, 6) if k != cl])
-    dens = [Fr(3 * cl, 4), Fr(3 * cr, 4)]
-    breaks = [-h * n_side, Fr(0), h * n_side]
+    el, cl, cr, er = rng.sample(range(1, 9), 4)            # four different densities
+    dens = [Fr(3 * el, 4), Fr(3 * cl, 4), Fr(3 * cr, 4), Fr(3 * er, 4)]
+    breaks = [-h * n_side, Fr(-5, 64), Fr(0), Fr(5, 64), h * n_side]
     a, sigma = dy(rng, -1, 1, 4), dy(rng, 0, 1, 4)
     if d == 1:
         model = StepModel(StepMeasure(breaks, dens, strict=False, finite_variation=not infinite_variation), a=a, sigma=sigma)
@@ -368,6 +367,9 @@ def coupled_cases(res, rng, tier):
                               dict(ctx0, level=level, mc_drift_h=mu_h, mc_drift_2h=mu_2h, previous_level_mc_drift_h=drift_history[-1],
                                    previous_level_fine_chain_drift=prev_fine_drift, fine_driver_drift=fine_drift, drift_history=drift_history))
             drift_history.append(mu_h)
+            # the model and the oracle below are fed the coarse drift the HARNESS observed on the previous level (not the
+            # object's own mc_drift_2h): the scheme must USE the previous level's fine drift for the coarse component
+            mu_2h = drift_history[-2]
             if diff_history is not None:
                 cf, cc = float(dcp.equivalent_diffusion_coefficient_fine), float(dcp.equivalent_diffusion_coefficient_coarse)
                 res.bump("fine_diffusion_coefficient_changes_with_level", cf != diff_history[-1])
